@@ -103,11 +103,19 @@ EscSq(w) == FlattenSeq([k \in 1..Len(w) |-> IF w[k] = SQ THEN << SQ, BS, SQ, SQ 
 Quote(w) == << SQ >> \o EscSq(w) \o << SQ >>
 RenderQuoted(ws) == JoinSp([k \in 1..Len(ws) |-> Quote(ws[k])])
 
-(* AS-BUILT (named deviation): only arguments containing a space are wrapped in single      *)
-(* quotes, nothing is escaped, the first word is written as it is                           *)
+(* AS-BUILT (named deviation): arguments that are empty or contain whitespace, a quote or a  *)
+(* backslash are quoted the way Python's shlex.quote does (single quotes, an embedded '     *)
+(* written as '"'"'); every other argument - also one with shell metacharacters - and the   *)
+(* first word are written as they are.  (Before the repair recorded as fixed under C24 only *)
+(* arguments containing a space were wrapped, unescaped: RenderSpacesOnly.)                 *)
 HasSpace(w) == \E k \in 1..Len(w) : w[k] = SP
-OneAsBuilt(w) == IF HasSpace(w) THEN << SQ >> \o w \o << SQ >> ELSE w
+EscShlex(w) == FlattenSeq([k \in 1..Len(w) |-> IF w[k] = SQ THEN << SQ, DQ, SQ, DQ, SQ >> ELSE << w[k] >>])
+NeedsQuoteAsBuilt(w) == w = << >> \/ \E k \in 1..Len(w) : w[k] \in {SP, TAB, NL, 13, 11, 12, SQ, DQ, BS}
+OneAsBuilt(w) == IF NeedsQuoteAsBuilt(w) THEN << SQ >> \o EscShlex(w) \o << SQ >> ELSE w
+OneSpacesOnly(w) == IF HasSpace(w) THEN << SQ >> \o w \o << SQ >> ELSE w
 RenderSpacesOnly(ws) ==
+  JoinSp([k \in 1..Len(ws) |-> IF k = 1 THEN ws[k] ELSE OneSpacesOnly(ws[k])])
+RenderAsBuilt(ws) ==
   JoinSp([k \in 1..Len(ws) |-> IF k = 1 THEN ws[k] ELSE OneAsBuilt(ws[k])])
 
 Faithful(cl, ws) == LET r == Split(cl) IN r.status = "ok" /\ r.words = ws
